@@ -1064,3 +1064,114 @@ func runOR3(c *load.Ctx, r *report.RuleResult) {
 		}
 	}
 }
+
+func init() {
+	register(&Rule{ID: "NR-2", Min: 1, Run: runNR2,
+		Doc: "added types are never empty: wherever the API package puts the inner schema of a *foreign* Schema object (one it did not build itself from a non-empty text) into a type table (AddNamedType), the call is dominated by a test that this schema has a root node — the checker, the validators and the example builder dereference the root node of every added type, so an empty added type would turn into a nil dereference that the recover handlers hand back as a raw run-time error"})
+}
+
+func runNR2(c *load.Ctx, r *report.RuleResult) {
+	const rel = "notations/jschema"
+	addNamed := c.Func(pkgSchema, "Schema.AddNamedType")
+	rootNode := c.Func(pkgSchema, "Schema.RootNode")
+	if addNamed == nil || rootNode == nil {
+		r.Unk("anchor|schema.Schema.AddNamedType/RootNode", "", "not found")
+		return
+	}
+	// the API object whose `inner` field a value is loaded from
+	ownerOfInner := func(v ssa.Value) ssa.Value {
+		for depth := 0; depth < 6; depth++ {
+			switch x := v.(type) {
+			case *ssa.UnOp:
+				v = x.X
+			case *ssa.FieldAddr:
+				if fieldName(x.X.Type(), x.Field) == "inner" {
+					return x.X
+				}
+				return nil
+			default:
+				return nil
+			}
+		}
+		return nil
+	}
+	n := 0
+	for _, fn := range c.ModuleFunctions() {
+		if load.FuncPkgRel(fn) != rel {
+			continue
+		}
+		for _, site := range callSites(fn, addNamed) {
+			if len(site.Call.Args) < 3 {
+				continue
+			}
+			n++
+			key := fmt.Sprintf("addedtype|%s|AddNamedType#%d", load.FuncKey(fn), n)
+			owner := ownerOfInner(site.Call.Args[2])
+			if owner == nil {
+				r.Unk(key, c.Pos(site.Pos()), "the schema put into the type table is not the inner schema of an API object: "+describeValue(site.Call.Args[2]))
+				continue
+			}
+			built := owner
+			if u, ok := built.(*ssa.UnOp); ok {
+				if al, ok := u.X.(*ssa.Alloc); ok {
+					for _, ref := range *al.Referrers() {
+						if st, ok := ref.(*ssa.Store); ok && st.Addr == al {
+							built = st.Val
+						}
+					}
+				}
+			}
+			if call, ok := built.(*ssa.Call); ok {
+				sc := call.Call.StaticCallee()
+				if sc != nil && sc.Origin() != nil {
+					sc = sc.Origin()
+				}
+				if sc != nil && (sc.Name() == "New" || sc.Name() == "FromFile") {
+					r.OK(key, c.Pos(site.Pos()), "the type is built here from a generated text (a quoted example with a regex rule): never empty")
+					continue
+				}
+			}
+			// a dominating `owner.inner.RootNode() ==/!= nil` whose non-nil side holds the call
+			ok := false
+			for _, rn := range callSites(fn, rootNode) {
+				if len(rn.Call.Args) == 0 || ownerOfInner(rn.Call.Args[0]) != owner {
+					continue
+				}
+				for _, ref := range *rn.Referrers() {
+					bo, isCmp := ref.(*ssa.BinOp)
+					if !isCmp {
+						continue
+					}
+					k, isConst := bo.Y.(*ssa.Const)
+					if !isConst || !k.IsNil() {
+						continue
+					}
+					for _, br := range *bo.Referrers() {
+						iff, isIf := br.(*ssa.If)
+						if !isIf {
+							continue
+						}
+						var nonNil *ssa.BasicBlock
+						switch bo.Op.String() {
+						case "==":
+							nonNil = iff.Block().Succs[1]
+						case "!=":
+							nonNil = iff.Block().Succs[0]
+						}
+						if nonNil != nil && (nonNil == site.Block() || nonNil.Dominates(site.Block())) {
+							ok = true
+						}
+					}
+				}
+			}
+			if ok {
+				r.OK(key, c.Pos(site.Pos()), "dominated by a test that the added schema has a root node")
+			} else {
+				r.Bad(key, c.Pos(site.Pos()), "a Schema object supplied by the caller is added as a type without testing that it has a root node: an empty type text makes Check, Validate and Example dereference nil (returned as a raw runtime error, not a structured one)")
+			}
+		}
+	}
+	if n == 0 {
+		r.Unk("anchor|AddNamedType call sites", "", "the API package never calls AddNamedType")
+	}
+}
